@@ -214,16 +214,18 @@ func c21ItemsOf(chunks []c21FileChunk) map[string]c21Entry {
 }
 
 type c21CacheWorld struct {
-	t        vpT
-	c        *MappingsCache
-	mod      *c21Model
-	universe []string
-	cs       c21CacheCase
-	buf      []byte
-	dir      string
-	fp       *os.File
-	gen      int
-	cls      map[string]bool
+	t              vpT
+	c              *MappingsCache
+	mod            *c21Model
+	universe       []string
+	cs             c21CacheCase
+	buf            []byte
+	dir            string
+	fp             *os.File
+	gen            int
+	cls            map[string]bool
+	scratch        []byte // the reused "packet buffer" of GetValueBytes callers
+	bytesRefreshed bool
 }
 
 func (w *c21CacheWorld) fileBytes() []byte {
@@ -354,6 +356,9 @@ func (w *c21CacheWorld) add(op c21CacheOp) {
 	if len(valid) > 0 {
 		mod.addCalls++
 	}
+	if w.bytesRefreshed && added >= 3 {
+		w.cls["map-grows-after-getBytes-refresh"] = true
+	}
 	if added > 0 || evicted > 0 {
 		mod.dirty = what
 		if added < int64(len(valid)) {
@@ -386,13 +391,37 @@ func (w *c21CacheWorld) get(op c21CacheOp) {
 	}
 	var v int32
 	var ok bool
+	what := fmt.Sprintf("GetValue(%d, %q)", ts, k)
 	if op.N%2 == 0 {
 		v, ok = w.c.GetValue(ts, k)
 	} else {
-		v, ok = w.c.GetValueBytes(ts, []byte(k))
+		// the caller parses the key out of a packet buffer it reuses: one buffer per case, holding the key only
+		// during the call, then whatever comes next (another key of the universe, or garbage)
+		if w.scratch == nil {
+			w.scratch = make([]byte, 2048)
+		}
+		buf := w.scratch[:len(k)]
+		copy(buf, k)
+		v, ok = w.c.GetValueBytes(ts, buf)
+		if op.N%4 == 1 {
+			other := c21Key((op.Keys[0] + 1 + op.N) % len(w.universe))
+			copy(w.scratch, other)
+			for i := len(other); i < len(w.scratch); i++ {
+				w.scratch[i] = '#'
+			}
+		} else {
+			for i := range w.scratch {
+				w.scratch[i] = byte('A' + (i+op.N)%23)
+			}
+		}
+		what = fmt.Sprintf("GetValueBytes(%d, %q) from a reused buffer, overwritten afterwards", ts, k)
+		w.cls["getBytes-from-reused-buffer"] = true
+		if e, has := mod.m[k]; has && ts > e.ts {
+			w.cls["getBytes-refresh-then-buffer-overwritten"] = true
+			w.bytesRefreshed = true
+		}
 	}
 	e, has := mod.m[k]
-	what := fmt.Sprintf("GetValue(%d, %q)", ts, k)
 	if ok != has || (has && v != e.val) || (!has && v != 0) {
 		t.Fatalf("%s = (%d,%v), model has %+v present=%v", what, v, ok, e, has)
 	}
@@ -856,7 +885,29 @@ func c21GenCacheOp() *rapid.Generator[c21CacheOp] {
 // (and reload)": the add changes the contents through the eviction path right after the versions were equal.
 func c21GenCacheSegment() *rapid.Generator[[]c21CacheOp] {
 	return rapid.Custom(func(t *rapid.T) []c21CacheOp {
-		if rapid.IntRange(0, 6).Draw(t, "pattern") != 0 {
+		switch rapid.IntRange(0, 7).Draw(t, "pattern") {
+		case 0:
+		case 1: // lookups from the reused buffer that refresh access times, then growth of the map, then save/reload
+			var ops []c21CacheOp
+			if rapid.IntRange(0, 2).Draw(t, "roomy") != 0 {
+				ops = append(ops, c21CacheOp{K: "cfg", N: len(c21Sizes) - 1 - rapid.IntRange(0, 1).Draw(t, "size"), TTL: rapid.SampledFrom([]int{0, 1000}).Draw(t, "ttl")})
+			}
+			ops = append(ops, c21CacheOp{K: "add", Now: uint32(rapid.IntRange(0, 20).Draw(t, "now0")),
+				Keys: rapid.SliceOfNDistinct(rapid.IntRange(1, len(c21KeyLens)-1), 1, 6, rapid.ID[int]).Draw(t, "keys0")})
+			now := 20
+			for n := rapid.IntRange(1, 5).Draw(t, "lookups"); n > 0; n-- {
+				now += rapid.IntRange(1, 10).Draw(t, "later")
+				ops = append(ops, c21CacheOp{K: "get", Now: uint32(now), Keys: []int{100 + rapid.IntRange(0, 9).Draw(t, "present")}, N: rapid.SampledFrom([]int{1, 3, 5}).Draw(t, "how")})
+			}
+			for n := rapid.IntRange(0, 3).Draw(t, "growth"); n > 0; n-- {
+				ops = append(ops, c21CacheOp{K: "add", Now: uint32(now),
+					Keys: rapid.SliceOfNDistinct(rapid.IntRange(1, len(c21KeyLens)-1), 3, 10, rapid.ID[int]).Draw(t, "keys1")})
+			}
+			if rapid.Bool().Draw(t, "restart") {
+				ops = append(ops, c21CacheOp{K: "load", Save: true})
+			}
+			return ops
+		default:
 			return []c21CacheOp{c21GenCacheOp().Draw(t, "op")}
 		}
 		var ops []c21CacheOp
